@@ -1,12 +1,16 @@
 import HappyModel.Proto
 import HappyModel.C01.Process
+import HappyModel.C01.Parse
 /-!
 C02 Spec over the harness trace (superset of the C01 trace):
 
     n f                 slot f := SimFuture()                (fresh future)
     a c g1 g2 …         slot c := any_of(g1, g2, …)
     l c g1 g2 …         slot c := all_of(g1, g2, …)
-    r f v               resolve(f, v) was called
+    r f v               resolve(f, v) was called; v is a value token (none, n7, a0.3 = an exception instance,
+                        a1.0 = False, a2.0 = "", …, p(1,n5), l[…]) — opaque to the engine
+    h tag k             completion hook k was attached to event <tag> (at creation or later)
+    H t k               completion hook k ran at clock t
     w pid f             process pid yielded future f
     y tag pid time …    process pid yielded a delay (continuation due at time)
     S/K/R/F/H …         deliveries as in C01 (R clock pid val tag)
@@ -15,7 +19,12 @@ The predicate: a process that yields a future is resumed exactly once, at the cl
 max(position of the yield, position at which the future became resolved), with the future's value;
 any_of = (index, value) of the first input to resolve (lowest index among inputs already resolved at
 construction); all_of = all values in argument order at the position of the last input; a second
-resolve changes nothing; a delay continuation resumes at exactly the yielded time, with `None`.
+resolve changes nothing; a delay continuation resumes at exactly the yielded time, with `None`; the value is *sent* into the
+process whatever it is (an exception instance is a value like any other: the yield expression evaluates to
+it, nothing is raised).  Completion hooks: when the processing of an event finishes (plain handler
+returned / no handler / its generator process finished) every hook attached to the event up to that
+moment — at creation, before the delivery, or while the process was in flight — runs exactly once, in
+attachment order, at that instant, and hooks run at no other time.
 -/
 namespace HappyModel.C02.Spec
 open HappyModel.Proto HappyModel.C01
@@ -24,7 +33,12 @@ inductive Line
   | fresh (f : Nat)
   | anyOf (c : Nat) (gs : List Nat)
   | allOf (c : Nat) (gs : List Nat)
-  | resolve (f v : Nat)
+  | resolve (f : Nat) (v : Val)
+  | hookAdd (tag k : Nat)
+  | hookRun (clock k : Nat)
+  | start (clock tag : Nat)            -- `S`: a handler was entered (allocates the next process id)
+  | skipped (clock tag : Nat)          -- `K`: no handler, the event's processing is over at once
+  | created
   | wait (pid f : Nat) (daemon : Bool)
   | ydelay (tag pid time : Nat)
   | resume (clock pid : Nat) (val : String) (tag : Nat)
@@ -39,12 +53,15 @@ def parseLine (l : String) : Line :=
   | ["n", f] => .fresh (natD f)
   | "a" :: c :: gs => .anyOf (natD c) (nats gs)
   | "l" :: c :: gs => .allOf (natD c) (nats gs)
-  | ["r", f, v] => .resolve (natD f) (natD v)
+  | ["r", f, v] => .resolve (natD f) (parseVal v)
+  | ["h", tag, k] => .hookAdd (natD tag) (natD k)
+  | ["H", clk, k] => .hookRun (natD clk) (natD k)
+  | "c" :: _ => .created
   | ["w", pid, f, dm] => .wait (natD pid) (natD f) (natD dm != 0)
   | ["y", tag, pid, time, _, _, _] => .ydelay (natD tag) (natD pid) (natD time)
   | ["R", clk, pid, val, tag] => .resume (natD clk) (natD pid) val (natD tag)
-  | ["S", clk, _, _, _, _] => .deliv (natD clk)
-  | ["K", clk, _, _, _, _] => .deliv (natD clk)
+  | ["S", clk, _, _, tag, _] => .start (natD clk) (natD tag)
+  | ["K", clk, _, _, tag, _] => .skipped (natD clk) (natD tag)
   | ["F", clk, pid] => .finish (natD clk) (natD pid)
   | ["C", _] => .crash
   | ["end", clk, e] => .endL (natD clk) (if e == "inf" then none else some (natD e))
@@ -72,6 +89,11 @@ structure SSt where
   err : Option String := none
   crashes : Bool := false
   endT : Option Nat := none
+  hooks : List (Nat × Nat) := []       -- (event tag, hook) attached and not yet due, in attachment order
+  pidTag : List (Nat × Nat) := []      -- process id ↦ tag of the event that started it
+  nProc : Nat := 0
+  due : List Nat := []                 -- hooks that must run right now (the event just finished), in order
+  dueClock : Nat := 0
 
 def SSt.obj (s : SSt) (slot : Nat) : Option Nat := (s.slot.find? (·.1 == slot)).map (·.2)
 
@@ -110,9 +132,29 @@ def settle (pos : Nat) : Nat → List FObj → List FObj
           else o
     settle pos fuel objs'
 
+/-- the processing of event `tag` is over at clock `clk`: its hooks fall due -/
+def SSt.finishEvent (s : SSt) (tag clk : Nat) : SSt :=
+  { s with due := (s.hooks.filter (·.1 == tag)).map (·.2), dueClock := clk,
+           hooks := s.hooks.filter (·.1 != tag) }
+
 def stepLine (s : SSt) (pos : Nat) (ln : Line) : SSt :=
   let s := { s with clockAt := s.clock :: s.clockAt }
+  -- hooks that fell due run before anything else happens (only the events they return are created in between)
+  let s := match ln with
+    | .hookRun _ _ | .created => s
+    | _ => if s.due.isEmpty then s else { s with err := s.err <|> some "process/hook/not-run-at-finish", due := [] }
   match ln with
+  | .hookAdd tag k => { s with hooks := s.hooks ++ [(tag, k)] }
+  | .hookRun clk k =>
+    match s.due with
+    | [] => { s with err := s.err <|> some "process/hook/ran-without-being-due" }
+    | k' :: rest =>
+      if k' != k then { s with err := s.err <|> some "process/hook/ran-out-of-order", due := rest }
+      else if clk != s.dueClock then { s with err := s.err <|> some "process/hook/ran-at-wrong-instant", due := rest }
+      else { s with due := rest }
+  | .created => s
+  | .start clk tag => { s with clock := clk, pidTag := (s.nProc, tag) :: s.pidTag, nProc := s.nProc + 1 }
+  | .skipped clk tag => { s with clock := clk }.finishEvent tag clk
   | .fresh f => s.bind f .plain pos
   | .anyOf c gs =>
     let (s1, ids) := gs.foldl (fun (acc : SSt × List Nat) g => let (a, o) := acc.1.ensure g pos; (a, acc.2 ++ [o])) (s, [])
@@ -127,7 +169,7 @@ def stepLine (s : SSt) (pos : Nat) (ln : Line) : SSt :=
     match s1.objs[o]? with
     | some ob =>
       if ob.res.isSome then s1 else
-      let objs := s1.objs.set o { ob with res := some (pos, .n v) }
+      let objs := s1.objs.set o { ob with res := some (pos, v) }
       { s1 with objs := settle pos (objs.length + 1) objs }
     | none => s1
   | .wait pid f dm =>
@@ -136,7 +178,11 @@ def stepLine (s : SSt) (pos : Nat) (ln : Line) : SSt :=
               daemonWaits := if dm then pid :: s1.daemonWaits else s1.daemonWaits }
   | .ydelay tag pid time => { s with delays := (pid, tag, time) :: s.delays }
   | .deliv clk => { s with clock := clk }
-  | .finish clk _ => { s with clock := clk }
+  | .finish clk pid =>
+    let s := { s with clock := clk }
+    match s.pidTag.find? (·.1 == pid) with
+    | some (_, tag) => s.finishEvent tag clk
+    | none => s
   | .crash => { s with crashes := true }
   | .endL _ e => { s with endT := e }
   | .other => s
@@ -148,6 +194,7 @@ def stepLine (s : SSt) (pos : Nat) (ln : Line) : SSt :=
       | some d =>
         let s' := { s with delays := s.delays.filter (fun x => !(x.1 == pid && x.2.1 == tag)) }
         if d.2.2 != clk then { s' with err := s.err <|> some "process/delay-resume-at-wrong-time" }
+        else if val.startsWith "raised:" then { s' with err := s.err <|> some "process/delay-resume-raised" }
         else if val != "none" then { s' with err := s.err <|> some "process/delay-resume-with-value" }
         else s'
     else
@@ -162,7 +209,8 @@ def stepLine (s : SSt) (pos : Nat) (ln : Line) : SSt :=
           -- clock at the position where both the wait and the resolution had happened
           let clocks := s.clockAt.reverse
           let dueClock := clocks.getD duePos s.clock
-          if v.show != val then { s' with err := s.err <|> some "future/resumed-with-wrong-value" }
+          if val.startsWith "raised:" then { s' with err := s.err <|> some "future/value-raised-instead-of-sent" }
+          else if v.show != val then { s' with err := s.err <|> some "future/resumed-with-wrong-value" }
           else if dueClock != clk then { s' with err := s.err <|> some "future/resumed-at-wrong-instant" }
           else s'
 
@@ -172,6 +220,7 @@ def judge (body : List String) : Option String :=
   match s.err with
   | some e => some e
   | none =>
+    if !s.due.isEmpty then some "process/hook/not-run-at-finish" else
     -- at the end: every wait whose future got resolved (within the horizon, nobody crashed) must
     -- have been resumed
     let clocks := s.clockAt.reverse
